@@ -1,0 +1,73 @@
+//go:build verif
+
+package sniproxy
+
+import (
+	"context"
+	"net"
+	"unsafe"
+
+	"github.com/gorilla/websocket"
+)
+
+// VerifClient exposes an endpointClient (the RPC client side of a tunnel)
+// built over a caller-supplied websocket, so that the harness can script the
+// peer.
+type VerifClient struct{ c *endpointClient }
+
+// VerifNewClient builds an endpoint client over conn.
+func VerifNewClient(conn *websocket.Conn, opt *Options) *VerifClient {
+	if opt == nil {
+		opt = &Options{}
+	}
+	return &VerifClient{c: newEndpointClient(conn, opt)}
+}
+
+// Serve runs the transport's serve loop; it returns when the loop exits.
+func (v *VerifClient) Serve() error { return v.c.serve() }
+
+// ServeDone is closed when the serve loop has exited.
+func (v *VerifClient) ServeDone() <-chan struct{} { return v.c.tr.serveDone }
+
+// Hello issues a hello call.
+func (v *VerifClient) Hello(ctx context.Context, msg string) (string, error) {
+	return v.c.Hello(ctx, msg)
+}
+
+// RawCall issues a call with an arbitrary type code whose request and reply
+// both have the hello layout (one string).
+func (v *VerifClient) RawCall(ctx context.Context, typ uint8, msg string) (string, error) {
+	req := &helloRequest{msg: msg}
+	resp := new(helloResponse)
+	if err := v.c.tr.call(ctx, typ, req, resp); err != nil {
+		return "", err
+	}
+	return resp.msg, nil
+}
+
+// Dial dials through the tunnel.
+func (v *VerifClient) Dial(ctx context.Context, asAddr string) (net.Conn, error) {
+	return v.c.Dial(ctx, asAddr)
+}
+
+// Tunnel returns a tunnelled connection for an existing session id, with the
+// never-cancelled context the real code uses.
+func (v *VerifClient) Tunnel(session uint64) net.Conn { return newTunnel(v.c.tr, session) }
+
+// Close shuts the client down as ServeBackName does.
+func (v *VerifClient) Close() error { return v.c.Close() }
+
+// VerifEndpointPtr returns the identity of the endpoint registered under
+// name (0 if none), as reported by the registry hooks.
+func (s *Server) VerifEndpointPtr(name string) uintptr {
+	ep, err := s.endpoint(name)
+	if err != nil {
+		return 0
+	}
+	return uintptr(unsafe.Pointer(ep))
+}
+
+// VerifNewSideConn wraps a websocket as a side connection.
+func VerifNewSideConn(conn *websocket.Conn, addr string) net.Conn {
+	return newSideConn(conn, addr)
+}
